@@ -339,6 +339,32 @@ class Repo:
                 out.append(c)
         return sorted(out, key=lambda c: c.qualname)
 
+    def role_class(self, role: str):
+        """Private classes found by what they are, not by what they are called.
+          dsc_meta   the metaclass of dataset classes (labrea.datasetclass, derives from type)
+          dsc_mixin  the instance mixin of dataset classes (labrea.datasetclass, defines __eq__)
+          all_options  the class of the public instance labrea.option.AllOptions"""
+        import ast as _ast
+        dm = self.modules.get("labrea.datasetclass")
+        if role in ("dsc_meta", "dsc_mixin") and dm is not None:
+            cands = [c for c in self.classes.values() if c.module is dm]
+            if role == "dsc_meta":
+                r = [c for c in cands if any("type" in k.external_bases() for k in c.mro())]
+            else:
+                r = [c for c in cands if "__eq__" in c.methods and not any("type" in k.external_bases() for k in c.mro())]
+            if len(r) == 1:
+                return r[0]
+            raise AnalysisError(f"labrea/datasetclass.py: {len(r)} candidates for the {role} class")
+        if role == "all_options":
+            om = self.modules.get("labrea.option")
+            v = om.names.get("AllOptions") if om is not None else None
+            if v and v[0] == "var" and isinstance(v[1], _ast.Call):
+                c = self.resolve_class(om, v[1].func) if isinstance(v[1].func, (_ast.Name, _ast.Attribute)) else None
+                if c is not None:
+                    return c
+            raise AnalysisError("labrea.option.AllOptions is not an instance of a class of the module")
+        raise AnalysisError(f"unknown role {role}")
+
     def node_classes(self) -> List[ClassInfo]:
         """Concrete Evaluatable classes: define (or inherit from a concrete
         labrea class) the four operations."""
